@@ -3014,6 +3014,374 @@ fn nonce_run(out: &mut Out, rng: &mut Rng, thorough: bool) {
 	out.raw(&format!("#STAT nonce: {}", parts.join(" ")));
 }
 
+// ---------------------------------------------------------------------------------------------
+// order mode: a verdict is a function of (variant, header, nonce, proof) - not of what the same
+// THREAD hashed or verified before
+// ---------------------------------------------------------------------------------------------
+
+/// siphash 2-4 written here from the definition (NOT the repo's source file): the endpoint
+/// derivation of this run's oracle must not share any state with the code under test
+fn ind_sip_round(v: &mut [u64; 4], rot_e: u32) {
+	v[0] = v[0].wrapping_add(v[1]);
+	v[2] = v[2].wrapping_add(v[3]);
+	v[1] = v[1].rotate_left(13);
+	v[3] = v[3].rotate_left(16);
+	v[1] ^= v[0];
+	v[3] ^= v[2];
+	v[0] = v[0].rotate_left(32);
+	v[2] = v[2].wrapping_add(v[1]);
+	v[0] = v[0].wrapping_add(v[3]);
+	v[1] = v[1].rotate_left(17);
+	v[3] = v[3].rotate_left(rot_e);
+	v[1] ^= v[2];
+	v[3] ^= v[0];
+	v[2] = v[2].rotate_left(32);
+}
+fn ind_sip_hash(v: &mut [u64; 4], nonce: u64, rot_e: u32) -> u64 {
+	v[3] ^= nonce;
+	ind_sip_round(v, rot_e);
+	ind_sip_round(v, rot_e);
+	v[0] ^= nonce;
+	v[2] ^= 0xff;
+	for _ in 0..4 {
+		ind_sip_round(v, rot_e);
+	}
+	(v[0] ^ v[1]) ^ (v[2] ^ v[3])
+}
+fn ind_siphash24(k: &[u64; 4], nonce: u64) -> u64 {
+	let mut v = *k;
+	ind_sip_hash(&mut v, nonce, 21)
+}
+fn ind_siphash_block(k: &[u64; 4], nonce: u64, rot_e: u8, xor_all: bool) -> u64 {
+	let n0 = nonce & !63;
+	let ni = (nonce & 63) as usize;
+	let mut v = *k;
+	let mut hs = [0u64; 64];
+	for i in 0..64u64 {
+		hs[i as usize] = ind_sip_hash(&mut v, n0 + i, rot_e as u32);
+	}
+	let mut x = hs[ni];
+	let from = if xor_all || ni == 63 { ni + 1 } else { 63 };
+	for h in hs.iter().skip(from) {
+		x ^= *h;
+	}
+	x
+}
+fn ind_ep(v: Var, keys: &[u64; 4], eb: u8, n: u64) -> (u64, u64) {
+	match v {
+		Var::Cuckatoo => {
+			let nm = (1u64 << eb) - 1;
+			(ind_siphash24(keys, 2 * n) & nm, ind_siphash24(keys, 2 * n + 1) & nm)
+		}
+		_ => {
+			let (nb, rot, xa) = match v {
+				Var::Cuckaroo => (eb, 21, false),
+				Var::Cuckarood => (eb - 1, 25, false),
+				Var::Cuckaroom => (eb, 21, true),
+				_ => (eb + 1, 21, true),
+			};
+			let nm = (1u64 << nb) - 1;
+			let e = ind_siphash_block(keys, n, rot, xa);
+			(e & nm, (e >> 32) & nm)
+		}
+	}
+}
+
+/// one verification to perform: fresh context of `v` seeded with (`hdr`, `nonce`), verify `proof`
+#[derive(Clone)]
+struct OrdItem {
+	v: Var,
+	eb: u8,
+	ps: usize,
+	hdr: Vec<u8>,
+	nonce: Option<u32>,
+	keys: [u64; 4],
+	proof: Vec<u64>,
+	/// verdict of the independent oracle on the independently derived graph
+	want: bool,
+	what: String,
+}
+
+fn ord_verify(it: &OrdItem) -> &'static str {
+	let it = it.clone();
+	match catch(move || {
+		let mut ctx = it.v.ctx(it.eb, it.ps);
+		if ctx.set_header_nonce(it.hdr.clone(), it.nonce, false).is_err() {
+			return "othererr";
+		}
+		err_name(&ctx.verify(&Proof { edge_bits: it.eb, nonces: it.proof.clone() }))
+	}) {
+		Ok(s) => s,
+		Err(_) => "panic",
+	}
+}
+
+/// run the items one after the other on ONE freshly spawned thread
+fn ord_thread(items: Vec<OrdItem>) -> Vec<&'static str> {
+	std::thread::spawn(move || {
+		let mut r = vec![];
+		for it in items.iter() {
+			set_chain_for(it.ps);
+			r.push(ord_verify(it));
+		}
+		r
+	})
+	.join()
+	.unwrap_or_default()
+}
+
+fn order_run(out: &mut Out, rng: &mut Rng, thorough: bool) {
+	let mut st: HashMap<String, u64> = HashMap::new();
+	let mut hit = |st: &mut HashMap<String, u64>, k: &str| *st.entry(k.to_string()).or_insert(0) += 1;
+	let mut fails = 0u64;
+	// --- A: verifications of different graph definitions sharing header and keys, in every order
+	let ps = 8usize;
+	set_chain_for(ps);
+	let ebs: Vec<u8> = if thorough { vec![4, 4, 5, 5, 6, 6, 6, 6, 7, 7, 8, 9, 10] } else { vec![4, 5, 6, 6, 6, 7, 8, 9] };
+	let mut all_groups: Vec<Vec<OrdItem>> = vec![];
+	for eb in ebs.iter() {
+		// a header in whose graphs Cuckarood (rotation 25) AND at least one rotation-21 block variant
+		// have an 8-cycle (tiny graphs are a single 64-hash siphash block)
+		let mut group: Option<Vec<OrdItem>> = None;
+		for _ in 0..(if thorough { 4000 } else { 1500 }) {
+			let hdr = rng.bytes(80);
+			let keys = real_keys(&hdr, None);
+			let mut items: Vec<OrdItem> = vec![];
+			let mut cyc_of: Vec<Var> = vec![];
+			for v in VARS.iter() {
+				let eps_all: Vec<(u64, u64)> = (0..(1u64 << *eb)).map(|n| ind_ep(*v, &keys, *eb, n)).collect();
+				let mut budget = 60_000u64;
+				let cs = find_cycles(*v, &eps_all, ps, &mut budget, 1);
+				let edge_mask = (1u64 << *eb) - 1;
+				let proof = match cs.into_iter().next() {
+					Some(c) => {
+						cyc_of.push(*v);
+						c
+					}
+					None => {
+						// no cycle in this variant's graph: any ascending tuple (to be refused)
+						let mut t: Vec<u64> = vec![];
+						while t.len() < ps {
+							let x = rng.below(1u64 << *eb);
+							if !t.contains(&x) {
+								t.push(x);
+							}
+						}
+						t.sort_unstable();
+						t
+					}
+				};
+				let eps: Vec<(u64, u64)> = proof.iter().map(|n| eps_all[*n as usize]).collect();
+				let want = oracle(*v, ps, edge_mask, &eps, &proof);
+				items.push(OrdItem { v: *v, eb: *eb, ps, hdr: hdr.clone(), nonce: None, keys, proof, want, what: if want { "cycle".into() } else { "non-cycle".into() } });
+			}
+			let rood = cyc_of.contains(&Var::Cuckarood);
+			let r21 = cyc_of.iter().any(|v| matches!(v, Var::Cuckaroo | Var::Cuckaroom | Var::Cuckarooz));
+			if rood && r21 && items.iter().filter(|i| i.want).count() >= 2 {
+				// also: each variant's proof under every OTHER variant (same keys, another graph)
+				let base = items.clone();
+				for a in base.iter() {
+					for b in base.iter() {
+						if a.v != b.v && a.want {
+							let edge_mask = (1u64 << *eb) - 1;
+							let eps: Vec<(u64, u64)> = a.proof.iter().map(|n| ind_ep(b.v, &keys, *eb, *n)).collect();
+							let want = oracle(b.v, ps, edge_mask, &eps, &a.proof);
+							items.push(OrdItem { v: b.v, eb: *eb, ps, hdr: hdr.clone(), nonce: None, keys, proof: a.proof.clone(), want, what: format!("cycle-of-{}", a.v.name()) });
+						}
+					}
+				}
+				group = Some(items);
+				break;
+			}
+		}
+		match group {
+			Some(g) => {
+				hit(&mut st, &format!("groups_eb{}", eb));
+				all_groups.push(g);
+			}
+			None => hit(&mut st, &format!("no_group_eb{}", eb)),
+		}
+	}
+	// sequences: all ordered pairs A,B and A,B,A of the five primary items of a group, some full
+	// permutations, the cross-variant items, and sequences mixing two headers (different keys)
+	let mut run_seq = |out: &mut Out, st: &mut HashMap<String, u64>, fails: &mut u64, tag: &str, seq: Vec<OrdItem>, control: &HashMap<String, &'static str>| {
+		let res = ord_thread(seq.clone());
+		let names: Vec<String> = seq.iter().map(|i| format!("{}@{}:{}", i.v.name(), i.eb, i.what)).collect();
+		out.raw(&format!("# order {} one thread: {}", tag, names.join(" -> ")));
+		for (i, it) in seq.iter().enumerate() {
+			let r = res.get(i).copied().unwrap_or("panic");
+			let key = format!("{}|{}|{}|{:?}", it.v.name(), it.eb, hex(&it.hdr), it.proof);
+			let alone = control.get(&key).copied().unwrap_or("?");
+			hit(st, &format!("{}_pos{}_{}", tag, i.min(3), if r == "ok" { "accepted" } else { "refused" }));
+			if (r == "ok") != it.want || r != alone {
+				*fails += 1;
+				out.raw(&format!(
+					"#ORACLE-FAIL C05 verdict depends on what the thread verified before: sequence [{}] position {}: {} edge_bits={} header={} nonce={} proof={} answered {} - alone on a fresh thread {}, the graph {} it (keys=[{}])",
+					names.join(" -> "), i, it.v.name(), it.eb, hex(&it.hdr), nonce_str(it.nonce), nat_list(&it.proof), r, alone,
+					if it.want { "contains" } else { "does not contain" }, keys_str(&it.keys)
+				));
+			}
+			out.line(
+				&format!("pow verify {} {} {} {} {} {}", it.v.name(), it.eb, it.ps, it.ps, keys_str(&it.keys), nat_list(&it.proof)),
+				r,
+			);
+		}
+	};
+	// control: every item alone on its own fresh thread
+	let mut control: HashMap<String, &'static str> = HashMap::new();
+	for g in all_groups.iter() {
+		for it in g.iter() {
+			let r = ord_thread(vec![it.clone()]);
+			let key = format!("{}|{}|{}|{:?}", it.v.name(), it.eb, hex(&it.hdr), it.proof);
+			let r0 = r.first().copied().unwrap_or("panic");
+			if (r0 == "ok") != it.want {
+				fails += 1;
+				out.raw(&format!("#ORACLE-FAIL C05 order control: {} edge_bits={} header={} proof={} answered {} alone on a fresh thread but the graph {} it", it.v.name(), it.eb, hex(&it.hdr), nat_list(&it.proof), r0, if it.want { "contains" } else { "does not contain" }));
+			}
+			out.raw("# order control: alone on a fresh thread");
+			out.line(&format!("pow verify {} {} {} {} {} {}", it.v.name(), it.eb, it.ps, it.ps, keys_str(&it.keys), nat_list(&it.proof)), r0);
+			control.insert(key, r0);
+		}
+	}
+	for (gi, g) in all_groups.iter().enumerate() {
+		let prim: Vec<OrdItem> = g[..5].to_vec();
+		for a in 0..5 {
+			for b in 0..5 {
+				if a == b {
+					continue;
+				}
+				run_seq(out, &mut st, &mut fails, "pair", vec![prim[a].clone(), prim[b].clone()], &control);
+				run_seq(out, &mut st, &mut fails, "aba", vec![prim[a].clone(), prim[b].clone(), prim[a].clone()], &control);
+			}
+		}
+		for _ in 0..(if thorough { 24 } else { 6 }) {
+			let mut perm = prim.clone();
+			for i in (1..perm.len()).rev() {
+				let j = rng.below(i as u64 + 1) as usize;
+				perm.swap(i, j);
+			}
+			run_seq(out, &mut st, &mut fails, "perm", perm, &control);
+		}
+		// everything of the group, shuffled, twice over
+		let mut all = g.clone();
+		all.extend(g.iter().cloned());
+		for i in (1..all.len()).rev() {
+			let j = rng.below(i as u64 + 1) as usize;
+			all.swap(i, j);
+		}
+		run_seq(out, &mut st, &mut fails, "all", all, &control);
+		// two headers (different keys) interleaved on one thread
+		if gi + 1 < all_groups.len() {
+			let h = &all_groups[gi + 1];
+			let mut mix: Vec<OrdItem> = vec![];
+			for k in 0..5 {
+				mix.push(g[k].clone());
+				mix.push(h[(k + 1) % 5].clone());
+				mix.push(g[(k + 2) % 5].clone());
+			}
+			run_seq(out, &mut st, &mut fails, "two-headers", mix, &control);
+		}
+	}
+	// the repo's 19-bit reference solutions (proof size 42), Cuckaroo <-> Cuckarood, on one thread
+	{
+		let vs = vectors();
+		let lens = vector_hdr_lens(&vs);
+		let mut refs: Vec<OrdItem> = vec![];
+		for (xi, x) in vs.iter().enumerate() {
+			if lens[xi] == 0 || x.eb != 19 {
+				continue;
+			}
+			let hdr = vec![0u8; lens[xi]];
+			global::set_local_chain_type(ChainTypes::UserTesting);
+			let keys = real_keys(&hdr, Some(x.hdr_nonce));
+			refs.push(OrdItem { v: x.v, eb: x.eb, ps: 42, hdr, nonce: Some(x.hdr_nonce), keys, proof: x.sol.to_vec(), want: true, what: "reference-vector".into() });
+		}
+		let mut control19: HashMap<String, &'static str> = HashMap::new();
+		for it in refs.iter() {
+			let r0 = ord_thread(vec![it.clone()]).first().copied().unwrap_or("panic");
+			control19.insert(format!("{}|{}|{}|{:?}", it.v.name(), it.eb, hex(&it.hdr), it.proof), r0);
+		}
+		if refs.len() >= 2 {
+			let mut seq: Vec<OrdItem> = vec![];
+			for a in 0..refs.len() {
+				for b in 0..refs.len() {
+					if a != b {
+						seq.push(refs[a].clone());
+						seq.push(refs[b].clone());
+						seq.push(refs[a].clone());
+					}
+				}
+			}
+			run_seq(out, &mut st, &mut fails, "reference-19", seq, &control19);
+		}
+		set_chain_for(ps);
+	}
+	// --- B: siphash_block / siphash24 values on ONE thread through many keys, blocks, rotation
+	// constants and xor modes (the repo's source file compiled into this binary), each compared with
+	// the definition written above, with a fresh thread, and (driver) with the model as a spec value
+	{
+		let n_calls = if thorough { 20000 } else { 3000 };
+		let keysets: Vec<[u64; 4]> = (0..3).map(|_| [rng.next(), rng.next(), rng.next(), rng.next()]).collect();
+		let blocks: Vec<u64> = vec![0, 64, 4096, rng.next() >> 8 << 6];
+		let mut calls: Vec<(usize, u64, u8, bool, bool)> = vec![]; // (keyset, nonce, rot, xor_all, is_sip24)
+		for i in 0..n_calls {
+			// mostly stay in the same block and switch one thing at a time
+			let last = calls.last().copied().unwrap_or((0, 0, 21, false, false));
+			let mut c = last;
+			match rng.below(8) {
+				0 => c.0 = rng.below(3) as usize,
+				1 => c.1 = *rng.pick(&blocks) + rng.below(64),
+				2 => c.2 = if c.2 == 21 { 25 } else { 21 },
+				3 => c.3 = !c.3,
+				4 => c.4 = !c.4,
+				5 => c.1 = (c.1 & !63) + rng.below(64),
+				6 => {
+					c.2 = if c.2 == 21 { 25 } else { 21 };
+					c.1 = (c.1 & !63) + rng.below(64);
+				}
+				_ => {}
+			}
+			if i == 0 {
+				c = (0, 5, 21, false, false);
+			}
+			calls.push(c);
+		}
+		let ks = keysets.clone();
+		let cs = calls.clone();
+		let vals: Vec<u64> = std::thread::spawn(move || {
+			cs.iter()
+				.map(|(k, n, rot, xa, s24)| if *s24 { siphash24(&ks[*k], *n) } else { siphash_block(&ks[*k], *n, *rot, *xa) })
+				.collect()
+		})
+		.join()
+		.unwrap_or_default();
+		for (i, (k, n, rot, xa, s24)) in calls.iter().enumerate() {
+			let got = vals.get(i).copied().unwrap_or(0);
+			let want = if *s24 { ind_siphash24(&keysets[*k], *n) } else { ind_siphash_block(&keysets[*k], *n, *rot, *xa) };
+			hit(&mut st, if *s24 { "sip24_calls" } else if *rot == 21 { "sipblock_rot21_calls" } else { "sipblock_rot25_calls" });
+			if got != want {
+				fails += 1;
+				let prev = if i > 0 { format!("{:?}", calls[i - 1]) } else { "-".to_string() };
+				out.raw(&format!(
+					"#ORACLE-FAIL C05 siphash value depends on earlier calls of the thread: call #{} keys=[{}] nonce={} rot={} xor_all={} siphash24={} gave {} but the definition gives {} (previous call: {})",
+					i, keys_str(&keysets[*k]), n, rot, xa, s24, got, want, prev
+				));
+			}
+			if *s24 {
+				out.line(&format!("pow sip24spec {} {}", keys_str(&keysets[*k]), n), &got.to_string());
+			} else {
+				out.line(&format!("pow sipblockspec {} {} {} {}", keys_str(&keysets[*k]), n, rot, xa), &got.to_string());
+			}
+		}
+	}
+	if fails == 0 {
+		hit(&mut st, "oracle_ok");
+	}
+	let mut parts: Vec<String> = st.iter().map(|(k, v)| format!("{}={}", k, v)).collect();
+	parts.sort();
+	out.raw(&format!("#STAT order: {}", parts.join(" ")));
+}
+
 fn main() {
 	quiet_panics();
 	let args: Vec<String> = std::env::args().collect();
@@ -3035,6 +3403,7 @@ fn main() {
 		"select" => select(&mut out, &mut rng, thorough),
 		"hist" => hist(&mut out, &mut rng, thorough),
 		"nonce" => nonce_run(&mut out, &mut rng, thorough),
+		"order" => order_run(&mut out, &mut rng, thorough),
 		"dif" => dif(&mut out, &mut rng, thorough),
 		"vsize" => vsize(&mut out, &mut rng, thorough),
 		_ => panic!("unknown mode"),
